@@ -101,6 +101,34 @@ pub fn render(spec: &WsdlSpec) -> FileSet {
     FileSet { start: "service.wsdl".to_string(), files }
 }
 
+/// A start schema importing 2-4 siblings whose registered names are distinct strings but look
+/// alike (shared last path segment, case, "./" prefix): any normalisation of names inside the
+/// library makes them collide, and then the registration order decides which one wins.
+const SIMILAR_NAMES: [&str; 10] = ["types.xsd", "v1/types.xsd", "v2/types.xsd", "./types.xsd", "common/v1/types.xsd", "Types.xsd", "types.XSD", "types.xsd.xsd", "a/b.xsd", "b.xsd"];
+
+pub fn render_similar_names(picks: &[usize]) -> FileSet {
+    let mut names: Vec<&str> = vec![];
+    for p in picks {
+        let n = SIMILAR_NAMES[*p % SIMILAR_NAMES.len()];
+        if !names.contains(&n) {
+            names.push(n);
+        }
+    }
+    let mut files = vec![];
+    let mut imports = String::new();
+    for (i, n) in names.iter().enumerate() {
+        let ns = format!("http://example.org/names/{}", ["alpha", "bravo", "charlie", "delta"][i % 4]);
+        imports += &format!("  <xs:import namespace=\"{ns}\" schemaLocation=\"{n}\"/>\n");
+        files.push((
+            n.to_string(),
+            format!("<?xml version=\"1.0\"?>\n<xs:schema xmlns:xs=\"http://www.w3.org/2001/XMLSchema\" targetNamespace=\"{ns}\" elementFormDefault=\"qualified\">\n  <xs:complexType name=\"Item{i}Type\"><xs:sequence><xs:element name=\"v{i}\" type=\"xs:string\"/></xs:sequence></xs:complexType>\n</xs:schema>\n"),
+        ));
+    }
+    let main = format!("<?xml version=\"1.0\"?>\n<xs:schema xmlns:xs=\"http://www.w3.org/2001/XMLSchema\" targetNamespace=\"http://example.org/names/main\" elementFormDefault=\"qualified\">\n{imports}  <xs:complexType name=\"Main\"><xs:sequence><xs:element name=\"m\" type=\"xs:int\"/></xs:sequence></xs:complexType>\n</xs:schema>\n");
+    files.insert(0, ("main.xsd".to_string(), main));
+    FileSet { start: "main.xsd".to_string(), files }
+}
+
 /// `vh gen-worker <fileset.json>`: one generation in a fresh process, outcome as JSON on stdout.
 pub fn gen_worker(path: &str) -> i32 {
     zeep::install_panic_hook();
@@ -301,7 +329,7 @@ pub fn run(tier: Tier) -> i32 {
         "C12",
         tier,
         "exploration",
-        "inputs: every repository schema/WSDL + proptest-generated order-sensitive WSDLs (2-9 operations, 1-4 parts per message, body with/without parts=, headers, types inline or in an imported file). Per accepted input the output bytes are compared with the first output across: R repeated in-process generations (each HashMap gets fresh RandomState keys), T threads, K fresh processes, all registration orders of Files::add (<= 4 files; sampled above), three calls on the SAME FilesToRead object, and two writes of the same document. Non-trivial: input with >= 2 operations or >= 2 message parts or >= 2 files; distinct by input text.",
+        "inputs: every repository schema/WSDL + proptest-generated order-sensitive WSDLs (2-9 operations, 1-4 parts per message, body with/without parts=, headers, types inline or in an imported file) + generated import sets whose registered file names are distinct but alike (shared last path segment, case, ./ prefix). Per accepted input the output bytes are compared with the first output across: R repeated in-process generations (each HashMap gets fresh RandomState keys), T threads, K fresh processes, all registration orders of Files::add (<= 4 files; sampled above), three calls on the SAME FilesToRead object, and two writes of the same document. Non-trivial: input with >= 2 operations or >= 2 message parts or >= 2 files; distinct by input text.",
     );
     ev.assume("hash seeds cannot be chosen, only sampled: each in-process HashMap and each fresh process draws new RandomState keys");
     let plan = Plan { repeats: tier.pick(6, 24), threads: tier.pick(4, 16), procs: tier.pick(8, 64) };
@@ -328,6 +356,12 @@ pub fn run(tier: Tier) -> i32 {
         inputs.push((format!("gen{i}"), fs, serde_json::to_value(&spec).unwrap()));
     }
 
+    let names_strat = proptest::collection::vec(0usize..SIMILAR_NAMES.len(), 2..5);
+    for i in 0..tier.pick(25, 300) {
+        let picks = names_strat.new_tree(&mut runner).unwrap().current();
+        inputs.push((format!("names{i}"), render_similar_names(&picks), json!({"similar_names": picks})));
+    }
+
     let wd = Watchdog::start("C12", 300);
     let mut reported = std::collections::BTreeSet::new();
     for (label, fs, origin) in &inputs {
@@ -352,6 +386,11 @@ pub fn run(tier: Tier) -> i32 {
                 ev.class("input.generated-wsdl.body-without-parts-multi-part");
             }
             ev.sample(json!({"generated": origin, "files": fs.files.iter().map(|f| f.0.clone()).collect::<Vec<_>>() }));
+        } else if label.starts_with("names") {
+            ev.class("input.generated-similar-file-names");
+            if label == "names0" {
+                ev.sample(json!({"similar_names": fs.files.iter().map(|f| f.0.clone()).collect::<Vec<_>>() }));
+            }
         } else {
             ev.class("input.repository");
         }
